@@ -215,6 +215,9 @@ def run(ctx):
     json_text_rule(ctx, "C06.R9", [ctx.cli, ctx.wasm, core])
     whole_stdin_rule(ctx, "C06.R11", ctx.cli)
     text_in_rule(ctx, "C06.R13", ctx.cli)
+    ctx.rule("C06.R15", "a string literal and a quoted record key denote exactly the characters between their quotes: the AST builder takes the token's text as it is (no trimming of quote characters, no unescaping - the grammar has none), so the JSON written for a value holds the code points the program wrote", floor=2)
+    from rules import c10 as c10__
+    c10__.literal_text_verbatim(ctx, "C06.R15", core)
     from rules import c11 as c11_
     ctx.rule("C06.R14", "a number written in a program is the number that is output: prefix minus is the IEEE negation of its operand (so `-0` stays -0 through output and input), never `0 - x`", floor=1)
     c11_.unary_rule(ctx, "C06.R14", core)
@@ -450,6 +453,10 @@ def text_in_rule(ctx, rid, cli):
                 if l_ is not None:
                     v_ = True if l_ in params else None
                     d_ = "serde_json::%s reads %s%s" % (H.last(x["def"]), l_, " (the text the function was given)" if v_ else " (a local: not followed)")
+                    # the text of a string *inside* the document parsed as a document again: a string value that happens to look
+                    # like JSON comes back as a list or record
+                    if v_ is None and any(H.kind(y) == "LetExpr" and l_ in H.pat_binds(y["pat"]) and any("serde_json" in v2 and v2.endswith("::String") for v2 in H.pat_variants(y["pat"])) for y in H.walk(f["body"])):
+                        v_, d_ = False, "serde_json::%s is applied to the text of a string value of the document (%s): a string that looks like JSON is replaced by what it spells" % (H.last(x["def"]), l_)
                 elif H.kind(a_) == "Call" and (a_.get("def") or "").split("::")[0] in ("blots", "blots_core", "blots_wasm"):
                     v_, d_ = False, "the JSON text goes through %s() before serde_json reads it: a pre-processing pass over JSON text has to know JSON's string and escape rules exactly, or it rewrites the inside of strings" % H.last(a_["def"])
                 elif H.kind(a_) == "MethodCall" and a_["name"] in REWRITE:
